@@ -59,7 +59,12 @@ theorem stopAttempt_getElem? {stop : Option (Time × Time)} {j : Nat} {dl : Ev}
     subscription, whatever the ticker's lateness and whenever cancellation / teardown happen. -/
 theorem interval_model_clause (r : IntervalRun) (h : IntervalWF r) :
     Clause { op := .interval, d := r.p } (intervalTrace r) := by
-  refine ⟨grammarOK_down _ r.unsub _ rfl, silentOK_stopCut _ r.stop r.unsub _ rfl rfl, ?_⟩
+  refine ⟨grammarOK_down _ r.unsub _ rfl, silentOK_stopCut _ r.stop r.unsub _ rfl rfl ?_, ?_⟩
+  · intro c x hs
+    rw [lateCount_append, lateCount_mapIdx c r.ticks _ (fun _ _ => rfl)]
+    have := h.selectFair c x hs
+    have := lateCount_stopAttempt c r.stop
+    omega
   apply opOK_of_getElem?
   intro k dl hk
   have h1 := down_getElem? hk
@@ -132,7 +137,7 @@ theorem timer_model_clause (r : TimerRun) (h : TimerWF r) :
     rw [ho] at h
     have hd : (timerTrace r).dels = [Ev.at x (.error errCancelled)] := by simp [timerTrace, ho]
     have hc : (timerTrace r).cut = .cancel c c := by simp [timerTrace, ho]
-    refine ⟨?_, silentOK_cancel _ c c hc, ?_⟩
+    refine ⟨?_, silentOK_cancel _ c c hc (by rw [hd]; have := lateCount_le_length c [Ev.at x (.error errCancelled)]; simp at this; unfold cancelSlack; omega), ?_⟩
     · intro k hk _
       rw [hd] at hk
       simp only [hd]
@@ -293,14 +298,25 @@ theorem iwiInv_run {sub i p : Nat} (hp : p ≤ i) : ∀ (evs : List IwiEv) (s s'
       ∀ r, (∀ possible environment) → Clause {intervalWithInitial, r.p, r.i} (trace r)
     Excluded classes, both listed as known findings: `initial = 0`, and `interval > initial`. -/
 theorem iwi_model_clause_partial (r : IwiRun) (hi : 0 < r.i) (hp : r.p ≤ r.i)
-    (hstop : ∀ c x, r.stop = some (c, x) → c ≤ x) (tr : TimedTrace) (htr : iwiTrace r = some tr) :
+    (hstop : ∀ c x, r.stop = some (c, x) → c ≤ x)
+    (hfair : ∀ c x s, r.stop = some (c, x) → iwiRunFrom r.sub r.i r.p (iwiInit r.sub r.i) r.evs = some s →
+      (s.out.filter (fun o => decide (c < o.1))).length ≤ cancelSlack)
+    (tr : TimedTrace) (htr : iwiTrace r = some tr) :
     Clause { op := .intervalWithInitial, d := r.p, d2 := r.i } tr := by
   unfold iwiTrace at htr
   have hi' : ¬ r.i = 0 := by omega
   simp only [hi', if_false, Option.map_eq_some_iff] at htr
   obtain ⟨s, hs, rfl⟩ := htr
   have hinv := iwiInv_run hp r.evs _ s (iwiInv_init r.sub r.i r.p) hs
-  refine ⟨grammarOK_down _ r.unsub _ rfl, silentOK_stopCut _ r.stop r.unsub _ rfl rfl, ?_⟩
+  refine ⟨grammarOK_down _ r.unsub _ rfl, silentOK_stopCut _ r.stop r.unsub _ rfl rfl ?_, ?_⟩
+  · intro c x hst
+    rw [lateCount_append]
+    have h1 := hfair c x s hst hs
+    have h2 := lateCount_stopAttempt c r.stop
+    have h3 : lateCount c (s.out.map (fun o => Ev.at o.1 (.next (o.2.1 : Int)))) = (s.out.filter (fun o => decide (c < o.1))).length := by
+      simp only [lateCount, List.filter_map, List.length_map]
+      rfl
+    omega
   apply opOK_of_getElem?
   intro k dl hk
   have h1 := down_getElem? hk
